@@ -710,8 +710,18 @@ def sums(trace, groups):
 
 
 def all_funcs(tus):
+    """functions as the interpreter walks them: new file-local helpers inlined (TU.func) and control flow in normal form
+    (`init; while (c) {..; step}` is the for loop it spells)"""
+    from .. import normal
     f = {}
     for tu in tus.values():
         for name, fn in tu.funcs.items():
-            f.setdefault(name, fn)
+            if name in f:
+                continue
+            if cfront.basename(fn.get('_locfile') or fn.get('_file')) == tu.cfile:
+                try:
+                    fn = normal.normalised_function(tu.func(name), guards=False)
+                except Exception:
+                    fn = tu.funcs[name]
+            f[name] = fn
     return f
